@@ -46,6 +46,7 @@ type gNode struct {
 	cust, q, r            string
 	ord, early, after, flt int
 	fetch                 string            // Init fetches this component by name (re-entrant callback; such scenarios are oracle-only)
+	progQ                 string            // qualifier attached in code by a T25 processor (such scenarios are oracle-only)
 	cfg                   int               // 0 none, 1 literal, 2 absent key required, 3 absent key optional, 4 absent key with default
 	slots                 map[string]string // slot → 'w'|'f' + tag text
 }
@@ -127,6 +128,7 @@ func runGraph(sc *gScen) *gRun {
 		b.Idx, b.Cust, b.Q, b.R, b.Ord, b.EarlyVer, b.AfterVer, b.Flt = i, gn.cust, gn.q, gn.r, gn.ord, gn.early, gn.after, gn.flt
 		b.spec = gn.slots
 		b.Fetch = gn.fetch
+		b.ProgQ = gn.progQ
 		b.env = env
 		b.V = "SENTINEL"
 		for _, pr := range sc.prefill {
@@ -357,12 +359,16 @@ func runGraph(sc *gScen) *gRun {
 	res.appRow = res.rowOf[framework_helper.GetComponentName(a)]
 	// boot list: priority-ordered universe post-processors (T14) first, then the observing processor
 	for i, n := range res.nodesObj {
-		if _, ordered := n.(*T23); isUnwired(n) && !ordered {
+		_, o23 := n.(*T23)
+		_, o25 := n.(*T25)
+		if isUnwired(n) && !o23 && !o25 {
 			res.boot = append(res.boot, i)
 		}
 	}
-	for i, n := range res.nodesObj { // the ordered (3) one comes after the priority class, before the observing processor (9)
-		if _, ordered := n.(*T23); ordered {
+	for i, n := range res.nodesObj { // the ordered (3) ones come after the priority class, before the observing processor (9)
+		_, o23 := n.(*T23)
+		_, o25 := n.(*T25)
+		if o23 || o25 {
 			res.boot = append(res.boot, i)
 		}
 	}
@@ -396,6 +402,9 @@ func runGraph(sc *gScen) *gRun {
 			}
 			sf, _ := baseT.FieldByName(sn)
 			kind, target := kindOf(sf.Type, tyOf)
+			if gn.progQ != "" && sc.hasType(25) && tag[0] == 'w' && !strings.Contains(tag, ",qualifier=") {
+				tag += ",qualifier=" + gn.progQ // what the point asks for once the T25 processor has qualified it
+			}
 			res.slotInfo[fmt.Sprintf("%d.%s", i, sn)] = [3]string{kind, target, tag}
 		}
 	}
@@ -667,8 +676,15 @@ func (r *gRun) scenarioLine() string {
 		}
 		rec := fmt.Sprintf("N %d %d %s %s %s %d %d %d %d %d %d", i, n.ty, hx.Hex(n.cust), hx.Hex(n.q), hx.Hex(n.r),
 			n.ord, n.early, n.after, n.flt, n.cfg, wired)
-		if n.fetch != "" {
-			rec += " " + hx.Hex(n.fetch)
+		if n.fetch != "" || n.progQ != "" {
+			ft := "-"
+			if n.fetch != "" {
+				ft = hx.Hex(n.fetch)
+			}
+			rec += " " + ft
+			if n.progQ != "" {
+				rec += " " + hx.Hex(n.progQ)
+			}
 		}
 		recs = append(recs, rec)
 	}
@@ -1039,7 +1055,7 @@ func (r *gRun) allOptional() bool {
 }
 
 func (r *gRun) plainlyResolvable() bool {
-	if r.sc.loaderFail || r.sc.scanFail {
+	if r.sc.loaderFail || r.sc.scanFail || r.sc.progQualified() {
 		return false
 	}
 	names := map[string]int{}
@@ -1167,8 +1183,11 @@ func parseGraphScenario(line string) (*gScen, error) {
 			n.after, _ = strconv.Atoi(f[8])
 			n.flt, _ = strconv.Atoi(f[9])
 			n.cfg, _ = strconv.Atoi(f[10])
-			if len(f) > 12 {
+			if len(f) > 12 && f[12] != "-" {
 				n.fetch, _ = hx.UnHex(f[12])
+			}
+			if len(f) > 13 {
+				n.progQ, _ = hx.UnHex(f[13])
 			}
 			sc.nodes = append(sc.nodes, n)
 		case "F":
@@ -1188,6 +1207,7 @@ func parseGraphScenario(line string) (*gScen, error) {
 func graphReplay(scn string, w *hx.Writer) {
 	scn = strings.TrimPrefix(scn, "#reentrant ")
 	scn = strings.TrimPrefix(scn, "#retry ")
+	scn = strings.TrimPrefix(scn, "#progq ")
 	sc, err := parseGraphScenario(scn)
 	if err != nil {
 		return
@@ -1306,6 +1326,8 @@ func emitGraph(sc *gScen, tags []string, w *hx.Writer) *gRun {
 		scn = "#reentrant " + scn // callbacks that re-enter the factory are outside the machine model: oracle-only
 	} else if sc.retry() {
 		scn = "#retry " + scn
+	} else if sc.progQualified() {
+		scn = "#progq " + scn
 	}
 	w.Put(hx.Case{Scn: scn, Obs: r.observation(), Oracle: joinFails(r.oracles()), Tags: append(tags, r.labels()...)})
 	return r
@@ -1340,6 +1362,25 @@ func (r *gRun) toleratedTarget(i int) bool {
 func (r *gRun) refusedBefore(row string) bool {
 	for _, t := range r.retries {
 		if t == row+":wrapped" {
+			return true
+		}
+	}
+	return false
+}
+
+func (sc *gScen) hasType(ty int) bool {
+	for _, n := range sc.nodes {
+		if n.ty == ty {
+			return true
+		}
+	}
+	return false
+}
+
+// progQualified: some holder's points are qualified in code (outside the model: oracle-only)
+func (sc *gScen) progQualified() bool {
+	for _, n := range sc.nodes {
+		if n.progQ != "" {
 			return true
 		}
 	}
